@@ -625,7 +625,8 @@ pub fn run_injections(out_path: &str) {
         }
     }
     let kinds = ["arc", "off", "uni", "uni2", "thin", "fat"];
-    let victim_ops = ["drop", "clone", "clone_arc", "try_unwrap", "make_mut", "unwrap_or_clone", "get_mut", "clone_from"];
+    // "is_unique": an inspection through a shared reference (the handle is Sync)
+    let victim_ops = ["drop", "clone", "clone_arc", "try_unwrap", "make_mut", "unwrap_or_clone", "get_mut", "clone_from", "is_unique"];
     // "clone_shared": the adversary clones through a shared reference to the VICTIM's handle (handles are Sync);
     // only legal while the victim call itself only borrows its handle (clone, clone_arc)
     let adversary = ["drop1", "drop2", "clone_drop", "try_unwrap", "read_drop1", "clone", "clone_shared"];
@@ -642,6 +643,7 @@ pub fn run_injections(out_path: &str) {
                 ("arc", "try_unwrap") | ("arc", "make_mut") | ("arc", "unwrap_or_clone") | ("arc", "get_mut") => true,
                 ("off", "make_mut") => true,
                 ("fat", "get_mut") => true,
+                ("arc", "is_unique") | ("thin", "is_unique") | ("fat", "is_unique") => true,
                 _ => false,
             };
             if !ok {
@@ -649,10 +651,7 @@ pub fn run_injections(out_path: &str) {
             }
             for others in [0usize, 1, 2] {
                 for adv in adversary {
-                    if (adv == "clone_shared") != (others == 0 || vop == "clone" || vop == "clone_arc") && adv == "clone_shared" {
-                        continue;
-                    }
-                    if adv == "clone_shared" && !(vop == "clone" || vop == "clone_arc") {
+                    if adv == "clone_shared" && !(vop == "clone" || vop == "clone_arc" || vop == "is_unique") {
                         continue;
                     }
                     if others == 0 && adv != "clone_shared" {
@@ -812,6 +811,15 @@ pub fn run_injections(out_path: &str) {
                                         mark(HINC, 0);
                                         kept.push(V::Arc(c));
                                     }
+                                    ("is_unique", V::Arc(a)) => {
+                                        let _ = a.is_unique();
+                                    }
+                                    ("is_unique", V::Thin(t)) => {
+                                        let _ = t.with_arc(|a| a.is_unique());
+                                    }
+                                    ("is_unique", V::Fat(f)) => {
+                                        let _ = f.is_unique();
+                                    }
                                     _ => {}
                                 }
                                 kept.push(victim);
@@ -891,6 +899,21 @@ pub fn run_injections(out_path: &str) {
                                         write_payload(&mut r.header.header, 9);
                                     }
                                     kept.push(V::Fat(f));
+                                }
+                                ("is_unique", v) => {
+                                    match &v {
+                                        V::Arc(a) => {
+                                            let _ = a.is_unique();
+                                        }
+                                        V::Thin(t) => {
+                                            let _ = t.with_arc(|a| a.is_unique());
+                                        }
+                                        V::Fat(f) => {
+                                            let _ = f.is_unique();
+                                        }
+                                        _ => {}
+                                    }
+                                    kept.push(v);
                                 }
                                 ("clone_from", v) => {
                                     // the victim's handle is overwritten by a clone of another value: its own
